@@ -24,7 +24,7 @@ def load_findings():
 
 
 def finding_matches(finding, prop, vclass, sig):
-    if finding.get("property") != prop or finding.get("status") != "open":
+    if finding.get("property") not in (prop, "*") or finding.get("status") != "open":
         return False
     fc = finding.get("class")
     if isinstance(fc, list):
@@ -194,7 +194,7 @@ def run_check(prop, tier, seed, nruns=None, quiet=False):
     n = nruns or cfg[tier + "_runs"]
     wall_cap = cfg.get(tier + "_wall", 600 if tier == "quick" else 3600)
     t0 = time.time()
-    findings = [f for f in load_findings() if f.get("property") == prop]
+    findings = [f for f in load_findings() if f.get("property") == prop or (f.get("property") == "*" and engine_name in (f.get("engines") or [engine_name]))]
     stats = collections.Counter()
     verdicts = collections.Counter()
     sdigs = set()
